@@ -85,6 +85,14 @@ int main() {
         for (int i = 0; i < m; i++) { sm->new_row(); for (auto& e : rows[i]) sm->add_element(e.second, e.first); }
         SparseMatrix<>* t = sm->transpose(); raw(t, "RT");
         SparseMatrix<>* tt = t->transpose(); raw(tt, "RTT");
+        {  // the normal matrix built by Envelope::set from this storage, original numbering, lower triangle (0 outside the profile)
+          SparseMatrixGraph<> graph(sm);
+          ReverseCuthillMcKee<> rcm(&graph);
+          Envelope<double, int> env(sm, &graph, &rcm);
+          std::cout << "EN " << n;
+          for (int i = 1; i <= n; i++) for (int j = 1; j <= i; j++) { const double* q = env.element(rcm.invp(i), rcm.invp(j)); std::cout << ' ' << dhex(q ? *q : 0.0); }
+          std::cout << "\n";
+        }
         delete tt; delete t; delete sm;
       } else if (w[0] == "B") {
         int nb = std::stoi(w[p++]);
